@@ -487,6 +487,51 @@ def task_bus(t):
     return {'viol': [v.to_json() for v in out], 'n': n}
 
 
+TCP_IDENTITIES = ['', '0', '1000', '65534', '4294967294', '4294967295', '18446744073709551615', '-1']
+
+
+def task_tcp(idents):
+    """A peer that connects over TCP has no socket credentials: whatever identity it claims, EXTERNAL cannot match them."""
+    import socket
+    bus = worker_bus()
+    out = []
+    n = 0
+    for ident in idents:
+        for via_data in (False, True):
+            case = {'tcp': [ident, via_data]}
+            try:
+                sk = socket.socket()
+                sk.bind(('127.0.0.1', 0))
+                port = sk.getsockname()[1]
+                sk.close()
+                bus.reset(B.make_config(auth=['EXTERNAL'], extra='  <listen>tcp:host=127.0.0.1,port=%d</listen>\n' % port))
+                c = bus.rawconnect(0, tcp_port=port)
+                bus.rawmode.add(c)
+                hexid = ident.encode().hex().encode()
+                if via_data:
+                    o = bus.step(c, b'\0AUTH EXTERNAL\r\n', raw=True)
+                    first = o[c].raw if c in o else b''
+                    o = bus.step(c, b'DATA ' + hexid + b'\r\n', raw=True)
+                    raw = first + (o[c].raw if c in o else b'')
+                else:
+                    o = bus.step(c, b'\0AUTH EXTERNAL ' + hexid + b'\r\n', raw=True)
+                    raw = o[c].raw if c in o else b''
+                n += 1
+                if b'OK ' in raw:
+                    out.append(Violation('response', 'tcp:EXTERNAL', 'a peer connected over TCP (no socket credentials) claimed identity %r with EXTERNAL (%s) and was answered %r' % (ident, 'DATA' if via_data else 'initial response', raw), case))
+                    continue
+                o = bus.step(c, b'BEGIN\r\n', raw=True)
+                bus.rawmode.discard(c)
+                o = bus.step(c, R.encode_message(R.bus_call(1, 'Hello')))
+                rep = B.find_reply(o.get(c), 1)
+                if rep is not None and rep.mtype == R.MT_RETURN:
+                    out.append(Violation('authenticated-without-valid-exchange', 'tcp:Hello', 'TCP peer claiming %r: Hello answered %r' % (ident, rep), case))
+            except HarnessDied as e:
+                out.append(crash_violation(e, case))
+                bus.h.close()
+    return {'viol': [v.to_json() for v in out], 'n': n}
+
+
 def bus_sequences(depth):
     cmds = ['AUTH', 'AUTH_EXT', 'AUTH_EXT_own', 'AUTH_EXT_other', 'AUTH_ANON', 'AUTH_BOGUS', 'DATA_empty', 'DATA_own', 'CANCEL', 'ERROR', 'BEGIN', 'NEGOTIATE_UNIX_FD', 'UNKNOWN']
     import itertools
@@ -526,7 +571,14 @@ def run(ctx):
                 tasks.append((uid, cfg, seqs[i:i + 60]))
     pool = Pool()
     nbus = 0
+    ntcp = 0
     try:
+        for r in pool.imap(task_tcp, [[i] for i in TCP_IDENTITIES]):
+            if '__crash__' in r:
+                ctx.add_violation(Violation('crash', r['__crash__'], r['stderr'], {'task': r['task']}))
+                continue
+            ctx.add_violations(r['viol'])
+            ntcp += r['n']
         for r in pool.imap(task_bus, tasks):
             if '__crash__' in r:
                 ctx.add_violation(Violation('crash', r['__crash__'], r['stderr'], {'task': r['task']}))
@@ -537,7 +589,7 @@ def run(ctx):
         pool.close()
     ctx.coverage.update({
         'states': total_states, 'transitions': total_trans + nbus, 'traces_validated_against_impl': total_trans + nbus,
-        'settings': per[:6] + ([{'more': len(per) - 6}] if len(per) > 6 else []), 'bus_level_handshakes': nbus,
+        'settings': per[:6] + ([{'more': len(per) - 6}] if len(per) > 6 else []), 'bus_level_handshakes': nbus, 'tcp_external_claims': ntcp,
         'bound': '%d settings (credentials x allowed mechanisms x {whole lines, byte by byte}); %d commands; BFS to fix-point or depth %d per setting; bus level: all sequences of <= %d of 13 commands for 2 uids x 4 configurations' %
                  (len(settings), len(COMMANDS), 12 if quick else 16, 2 if quick else 3),
     })
@@ -547,6 +599,8 @@ def run(ctx):
 
 
 def replay(case):
+    if 'tcp' in case:
+        return [Violation.from_json(v) for v in task_tcp([case['tcp'][0]])['viol']]
     if 'bus' in case:
         uid, cfg, seq = case['bus']
         r = task_bus((uid, cfg, [seq]))
